@@ -197,34 +197,50 @@ Fixpoint inhab (T : table) (fuel : nat) (i : N) : bool :=
       end
   end.
 
-Fixpoint produces (T : table) (fuel : nat) (i : N) (sh : oshape) : bool :=
-  match fuel with
-  | O => false
-  | S f =>
-      match lookup T i with
-      | None => false
-      | Some n =>
-          match n_kind n with
-          | KFun => existsb (fun m => produces T f m sh) (n_inner n)
-          | KLeaf => match sh with [(k, c)] => (k =? 0) && (c =? n_code n) | _ => false end
-          | KCtx => match sh with [(k, c)] => (k =? 2) && (c =? 0) | _ => false end
-          | KBare | KUnknown => match sh with [(k, c)] => (k =? 3) && (c =? 0) | _ => false end
-          | KRewrapv => match sh with
-                        | [(k, c)] => (if n_code n =? 0 then (k =? 3) && (c =? 0) else (k =? 0) && (c =? n_code n))
-                                      && existsb (inhab T f) (n_dropped n)
-                        | _ => false
-                        end
-          | KWrapw => match sh with
-                      | (k, c) :: rest => (k =? 1) && (c =? 0) && existsb (fun m => produces T f m rest) (n_inner n)
-                      | [] => false
-                      end
-          | KCause => match sh with
-                      | (k, c) :: rest => (k =? 0) && (c =? n_code n) && existsb (fun m => produces T f m rest) (n_inner n)
-                      | [] => false
-                      end
-          end
-      end
+(* Which nodes can produce the chain sh?  Computed from the end of the chain: the nodes matching the last
+   element, then for each earlier element the wrapping sites over a node of the previous set, each time closed
+   under pass-through (function results).  Non-structured chain elements carry 0 in the code position. *)
+Definition term_match (T : table) (n : node) (k c : N) : bool :=
+  match n_kind n with
+  | KLeaf => (k =? 0) && (c =? n_code n)
+  | KCtx => (k =? 2) && (c =? 0)
+  | KBare | KUnknown => (k =? 3) && (c =? 0)
+  | KRewrapv => (if n_code n =? 0 then (k =? 3) && (c =? 0) else (k =? 0) && (c =? n_code n))
+                && existsb (inhab T (length T)) (n_dropped n)
+  | _ => false
   end.
+Definition wrap_match (n : node) (k c : N) : bool :=
+  match n_kind n with
+  | KWrapw => (k =? 1) && (c =? 0)
+  | KCause => (k =? 0) && (c =? n_code n)
+  | _ => false
+  end.
+Definition is_fun (n : node) : bool := match n_kind n with KFun => true | _ => false end.
+Definition fun_step (T : table) (S : list N) : list node :=
+  filter (fun n => is_fun n && negb (mem (n_id n) S) && existsb (fun m => mem m S) (n_inner n)) T.
+Fixpoint close (T : table) (fuel : nat) (S : list N) : list N :=
+  match fuel with
+  | O => S
+  | Datatypes.S f => match fun_step T S with
+                     | [] => S
+                     | new => close T f (map n_id new ++ S)
+                     end
+  end.
+Fixpoint prod_set (T : table) (sh : oshape) : list N :=
+  match sh with
+  | [] => []
+  | (k, c) :: rest =>
+      close T (length T)
+        (match rest with
+         | [] => map n_id (filter (fun n => term_match T n k c) T)
+         | _ => let S := prod_set T rest in
+                map n_id (filter (fun n => wrap_match n k c && existsb (fun m => mem m S) (n_inner n)) T)
+         end)
+  end.
+Definition produces (T : table) (i : N) (sh : oshape) : bool := mem i (prod_set T sh).
+(* one correspondence case: a chain shape and the nodes (entry points) it was observed at *)
+Definition shape_case_ok (T : table) (c : oshape * list N) : bool :=
+  let S := prod_set T (fst c) in forallb (fun i => mem i S) (snd c).
 
 (* the shape the harness observes for an error value *)
 Fixpoint shape_of (e : err) : oshape :=
